@@ -140,6 +140,9 @@ fn lower_sum(lhs: f64, rhs: f64) -> f64 {
     let value = lhs + rhs;
     if value.is_nan() {
         f64::NEG_INFINITY
+    } else if value == f64::INFINITY && lhs.is_finite() && rhs.is_finite() {
+        // the exact sum is finite: the overflow rounds down to the largest finite number
+        f64::MAX
     } else {
         toward_lower(value, sum_error(lhs, rhs, value))
     }
@@ -149,6 +152,8 @@ fn upper_sum(lhs: f64, rhs: f64) -> f64 {
     let value = lhs + rhs;
     if value.is_nan() {
         f64::INFINITY
+    } else if value == f64::NEG_INFINITY && lhs.is_finite() && rhs.is_finite() {
+        f64::MIN
     } else {
         toward_upper(value, sum_error(lhs, rhs, value))
     }
